@@ -439,8 +439,8 @@ class Unit:
                 pat = r'\s+'.join(re.escape(tok) for tok in a.split())
                 text, n = sub_outside_comments(pat, b_.replace('\\', '\\\\'), text)
                 if n == 0:
-                    if label in getattr(self, 'force_external', ()):
-                        continue    # body is dropped anyway (function left unverified)
+                    if label in getattr(self, 'force_external', ()) or vacuity:
+                        continue    # body is dropped anyway (function left unverified / vacuity probe)
                     ex = LostAnchor('R-subst anchor %r not found in %s' % (a, label))
                     ex.label = label
                     raise ex
